@@ -73,11 +73,15 @@ SYNC_DELAYS = [('find_calling_pr', 300, 300), ('find_calling_pr', 0, 400), ('fin
 SYNC_SHIM = os.path.join(runner.STUBS, 'syncdelay.so')
 
 
+THREADFAIL_SHIM = os.path.join(runner.STUBS, 'threadfail.so')
+
+
 def prepare(ctx):
-    src = os.path.join(runner.STUBS, 'syncdelay.c')
-    if not os.path.exists(SYNC_SHIM) or os.path.getmtime(SYNC_SHIM) < os.path.getmtime(src):
-        subprocess.run(['clang', '-O2', '-shared', '-fPIC', '-o', SYNC_SHIM + '.%d' % os.getpid(), src, '-ldl'], check=True)
-        os.rename(SYNC_SHIM + '.%d' % os.getpid(), SYNC_SHIM)
+    for shim in (SYNC_SHIM, THREADFAIL_SHIM):
+        src = shim[:-3] + '.c'
+        if not os.path.exists(shim) or os.path.getmtime(shim) < os.path.getmtime(src):
+            subprocess.run(['clang', '-O2', '-shared', '-fPIC', '-o', shim + '.%d' % os.getpid(), src, '-ldl'], check=True)
+            os.rename(shim + '.%d' % os.getpid(), shim)
 
 
 def reference_schedule(name):
@@ -88,7 +92,7 @@ def reference_schedule(name):
     return ['bg:before_lock', 'bg:done', 'query1:before_lock']
 
 
-def run_scenario(name, sched=None, hold=False, jitter=None, variant='hooks', timeout=20.0, jitter_max_us=None, _retry=False, syncdelay=None):
+def run_scenario(name, sched=None, hold=False, jitter=None, variant='hooks', timeout=20.0, jitter_max_us=None, _retry=False, syncdelay=None, threadfail=None):
     """Runs one scenario under one schedule.  Returns dict(out, err, rc, trace, timed_out, deadlock, hold_released)."""
     args, stdin, parent, stub_out, known, guess = SCENARIOS[name]
     w = runner.workdir()
@@ -116,6 +120,9 @@ def run_scenario(name, sched=None, hold=False, jitter=None, variant='hooks', tim
         sync_log = os.path.join(tdir, 'c20sync.' + uid)
         env.update({'LD_PRELOAD': SYNC_SHIM, 'SYNCDELAY_THREAD': syncdelay[0], 'SYNCDELAY_BEFORE_MS': str(syncdelay[1]),
                     'SYNCDELAY_AFTER_MS': str(syncdelay[2]), 'SYNCDELAY_LOG': sync_log})
+    if threadfail is not None:
+        sync_log = os.path.join(tdir, 'c20tf.' + uid)
+        env.update({'LD_PRELOAD': THREADFAIL_SHIM, 'THREADFAIL_NTH': str(threadfail), 'THREADFAIL_LOG': sync_log})
     if variant == 'tsan':
         env['TSAN_OPTIONS'] = 'halt_on_error=0 exitcode=66 report_signal_unsafe=0'
     exe = runner.binary(variant)
@@ -170,7 +177,7 @@ def run_scenario(name, sched=None, hold=False, jitter=None, variant='hooks', tim
     if res['timed_out'] and not res['deadlock'] and not _retry:
         # threads were busy, not asleep: a slow machine or a thread that spins. One more try with four times the time
         # settles it (these inputs are a few hundred bytes)
-        again = run_scenario(name, sched=sched, hold=hold, jitter=jitter, variant=variant, timeout=4 * timeout, jitter_max_us=jitter_max_us, _retry=True, syncdelay=syncdelay)
+        again = run_scenario(name, sched=sched, hold=hold, jitter=jitter, variant=variant, timeout=4 * timeout, jitter_max_us=jitter_max_us, _retry=True, syncdelay=syncdelay, threadfail=threadfail)
         again['retried'] = True
         if again['timed_out'] and not again['deadlock']:
             again['no_termination'] = True
@@ -335,6 +342,12 @@ def plan(ctx):
                 continue        # the main thread only notifies when delta launched the command
             for rep in range(ctx.n(1, 6)):
                 items.append(('syncdelay', name, k, rep))
+    # a thread that cannot be started (pthread_create refused once, as when a task limit is hit for a moment): whatever delta
+    # makes of it, no query may wait for an answer that nobody is going to publish
+    for name in sorted(SCENARIOS):
+        for nth in (1, 2):
+            for rep in range(ctx.n(1, 4)):
+                items.append(('threadfail', name, nth, rep))
     for i in range(ctx.n(300, 12000)):
         items.append(('jitter', sorted(SCENARIOS)[i % len(SCENARIOS)], engine.stable_hash((ctx.seed, 'jit', i)) % 100000))
     for i in range(ctx.n(100, 4000)):
@@ -467,6 +480,21 @@ def run_item(item):
         elif o['status'] == 'held':
             o['counters']['sync_delays'] = r['sync_delays']
         return [o]
+    if kind == 'threadfail':
+        nth = item[2]
+        r = run_scenario(name, threadfail=nth, timeout=10.0)
+        label = 'threadfail(%d)' % nth
+        sets = {'scenarios': [name], 'schedules': ['%s:%s' % (name, label)]}
+        if r['timed_out'] or r.get('no_termination'):
+            return [violated('c20:deadlock:' + label if r['deadlock'] else 'c20:no-termination:' + label,
+                             'scenario %s with the %s pthread_create refused (EAGAIN): delta did not terminate (%s)'
+                             % (name, 'first' if nth == 1 else 'second', 'all threads asleep in futex' if r['deadlock'] else 'threads busy'),
+                             'termination', 'still running after %s s' % (40 if r.get('retried') else 10), sets=sets,
+                             extra={'stderr': r['err'][-300:].decode('utf-8', 'replace'), 'trace': r['trace'][-10:]})]
+        if not r.get('sync_delays'):
+            return [inconclusive('no pthread_create call number %d in scenario %s' % (nth, name), sets={'scenarios': [name]})]
+        sets['outcome_when_a_thread_cannot_start'] = ['exit %s%s' % (r['rc'], ' (panic message)' if b'panicked' in r['err'] else '')]
+        return [held(sig='%s|%s|%s' % (name, label, r['rc']), nontrivial=True, counters={'thread_start_refusals': r['sync_delays']}, sets=sets)]
     if kind in ('jitter', 'unforced', 'tsan'):
         ref = _reference(name)
         variant = 'tsan' if kind == 'tsan' else 'hooks'
